@@ -105,8 +105,9 @@ def host_proto(G):
         if name.startswith("s"):
             inits.append(onnx.numpy_helper.from_array(np.asarray(val, dtype=np.int64), name))
         else:
-            inits.append(onnx.numpy_helper.from_array(np.asarray(val, dtype=np.float32), name))
-    vi = lambda nm: helper.make_tensor_value_info(nm, TensorProto.FLOAT, ["N"])  # noqa: E731
+            inits.append(onnx.numpy_helper.from_array(np.asarray(val, dtype=np.dtype(G.get("dtype", "float32"))), name))
+    et = helper.np_dtype_to_tensor_dtype(np.dtype(G.get("dtype", "float32")))
+    vi = lambda nm: helper.make_tensor_value_info(nm, et, ["N"])  # noqa: E731
     g = helper.make_graph(nodes, "host", [vi(i) for i in G["inputs"]], [vi(o) for o in G["outputs"]], initializer=inits)
     return helper.make_model(g, opset_imports=[helper.make_opsetid("", 13), helper.make_opsetid("custom", 1)], ir_version=8)
 
